@@ -194,6 +194,30 @@ def findSub (pat b : List Nat) : Option Nat :=
 
 def bytesOf (s : String) : List Nat := s.toUTF8.toList.map (·.toNat)
 
+/-- `std::str::from_utf8` acceptance (no overlong forms, no surrogates, at most U+10FFFF) -/
+def validUtf8 : List Nat → Bool
+  | [] => true
+  | b0 :: rest =>
+    let cont (b : Nat) : Bool := 0x80 ≤ b && b ≤ 0xBF
+    if b0 < 0x80 then validUtf8 rest
+    else if 0xC2 ≤ b0 && b0 ≤ 0xDF then
+      match rest with
+      | b1 :: r => cont b1 && validUtf8 r
+      | _ => false
+    else if 0xE0 ≤ b0 && b0 ≤ 0xEF then
+      match rest with
+      | b1 :: b2 :: r =>
+        (if b0 = 0xE0 then 0xA0 ≤ b1 && b1 ≤ 0xBF else if b0 = 0xED then 0x80 ≤ b1 && b1 ≤ 0x9F else cont b1) &&
+          cont b2 && validUtf8 r
+      | _ => false
+    else if 0xF0 ≤ b0 && b0 ≤ 0xF4 then
+      match rest with
+      | b1 :: b2 :: b3 :: r =>
+        (if b0 = 0xF0 then 0x90 ≤ b1 && b1 ≤ 0xBF else if b0 = 0xF4 then 0x80 ≤ b1 && b1 ≤ 0x8F else cont b1) &&
+          cont b2 && cont b3 && validUtf8 r
+      | _ => false
+    else false
+
 /-- `[GLOBAL]\n G \n+ [STREAM]\n S \n+ [POSITION]\n P \n+ [DATA]\n D` -/
 def splitSections (b : List Nat) : Res (List Nat × List Nat × List Nat × List Nat) :=
   let skipNl (b : List Nat) := b.dropWhile (· = 10)
@@ -238,6 +262,15 @@ def stripQuotes (t : List Nat) : List Nat :=
 
 def isIdentChar (c : Nat) : Bool := isDigit c || (65 ≤ c && c ≤ 90) || (97 ≤ c && c ≤ 122) || c = 95
 
+/-- `parse_pattern`: ASCII letters and digits, the wildcards `*` `?`, and the 13 label symbols of
+    `JPCOMMON_SYMBOLS` (given below by code point) -/
+def isPatChar (c : Nat) : Bool :=
+  isDigit c || (65 ≤ c && c ≤ 90) || (97 ≤ c && c ≤ 122) || c = 42 || c = 63 ||
+    [33, 35, 37, 38, 43, 45, 47, 58, 61, 64, 94, 95, 124].contains c
+
+/-- `parse_question_ident`: ASCII, no separator (tokens carry no separators) -/
+def isAsciiTok (t : List Nat) : Bool := t.all (· < 128)
+
 /-- a child reference: signed digits = node id; identifier whose last run of digits is the PDF id -/
 def parseChild (t : List Nat) : Option Child :=
   let u := stripQuotes t
@@ -258,6 +291,8 @@ def parseSignedNat (t : List Nat) : Option Int :=
 /-- `QS name { "p","q" }` lines, then `{*}[s]` trees; whitespace-tokenised -/
 def parseTreeText (b : List Nat) : Option (Questions × List FileTree) :=
   let toks := tokens b
+  -- `parse_questions` starts with the tag `QS` at the first byte; only trees may be preceded by separators
+  if (toks.head?.map strOf) == some "QS" && b.head? != some 81 then none else
   let rec go (fuel : Nat) (ts : List (List Nat)) (qs : Questions) (trees : List FileTree) :
       Option (Questions × List FileTree) :=
     match fuel with
@@ -273,7 +308,9 @@ def parseTreeText (b : List Nat) : Option (Questions × List FileTree) :=
             let pats := rest2.takeWhile (fun x => strOf x != "}")
             let after := rest2.drop (pats.length + 1)
             if pats.length = rest2.length then none else
-            let ps := (splitOn 44 (pats.flatten)).filter (!·.isEmpty) |>.map (fun p => toChars (stripQuotes p))
+            let raw := (splitOn 44 (pats.flatten)).filter (!·.isEmpty) |>.map stripQuotes
+            if !isAsciiTok name || raw.any (fun p => !p.all isPatChar) then none else
+            let ps := raw.map toChars
             go fuel after ((strOf name, ps) :: qs) trees
           | _ => none
         else if (bytesOf "{*}[").isPrefixOf t && t.getLast? = some 93 then
@@ -290,7 +327,8 @@ def parseTreeText (b : List Nat) : Option (Questions × List FileTree) :=
                 if body.length % 4 ≠ 0 then none else
                 let rows := (List.range (body.length / 4)).map fun i =>
                   match parseSignedNat (body.getD (4 * i) []), parseChild (body.getD (4 * i + 2) []), parseChild (body.getD (4 * i + 3) []) with
-                  | some id, some no, some yes => some ({ id, qname := strOf (body.getD (4 * i + 1) []), no, yes } : Row)
+                  | some id, some no, some yes =>
+                    if isAsciiTok (body.getD (4 * i + 1) []) then some ({ id, qname := strOf (body.getD (4 * i + 1) []), no, yes } : Row) else none
                   | _, _, _ => none
                 if rows.any Option.isNone then none
                 else go fuel after qs ({ state := st.toNat, rows := rows.filterMap id } :: trees)
@@ -329,12 +367,35 @@ structure ParsedVoice where
   streams : List ParsedStream
   deriving Repr
 
-/-- `n c1 … cn` -/
+/-- the text nom's `double` accepts: `[+-]? (digits [. digits*]? | . digits+) ([eE] [+-]? digits+)?`, or
+    `inf` / `infinity` / `nan` in any case -/
+def isDoubleText (t : List Nat) : Bool :=
+  let lower := t.map fun c => if 65 ≤ c && c ≤ 90 then c + 32 else c
+  let unsigned := match lower with | 43 :: r => r | 45 :: r => r | r => r
+  if unsigned == bytesOf "inf" || unsigned == bytesOf "infinity" || unsigned == bytesOf "nan" then true
+  else
+    let intPart := unsigned.takeWhile isDigit
+    let r1 := unsigned.drop intPart.length
+    let (fracOk, r2) := match r1 with
+      | 46 :: r =>
+        let f := r.takeWhile isDigit
+        (!intPart.isEmpty || !f.isEmpty, r.drop f.length)
+      | r => (!intPart.isEmpty, r)
+    fracOk && (match r2 with
+      | [] => true
+      | e :: r =>
+        if e = 101 then
+          let r' := match r with | 43 :: q => q | 45 :: q => q | q => q
+          !r'.isEmpty && r'.all isDigit
+        else false)
+
+/-- `parse_window_row`: the count is the very first byte run (no leading separator), then that many doubles -/
 def parseWindow (b : List Nat) : Option (List String) :=
+  if !((b.head?.map isDigit).getD false) then none else
   match tokens b with
   | n :: cs =>
     match leadingNat n with
-    | some (some k, []) => if cs.length = k then some (cs.map strOf) else none
+    | some (some k, []) => if cs.length = k && cs.all isDoubleText then some (cs.map strOf) else none
     | _ => none
   | [] => none
 
@@ -344,6 +405,7 @@ def checkedMul (guarded : Bool) (a b : Nat) : Res Nat :=
 /-- `parse_htsvoice` -/
 def parseVoice (guarded : Bool) (bytes : List Nat) : Res ParsedVoice :=
   bindR (splitSections bytes) fun (gb, sb, pb, d) =>
+  if !(validUtf8 gb && validUtf8 sb && validUtf8 pb) then .err "HeaderUtf8Error" else
   bindR (parseGlobal guarded gb) fun g =>
   bindR (headerLines sb) fun skv =>
   bindR (headerLines pb) fun pkv =>
